@@ -52,3 +52,7 @@ func (v *VerifStreamWriter) Writec() (chan<- raftpb.Message, bool) { return v.w.
 
 // Stop is streamWriter.stop().
 func (v *VerifStreamWriter) Stop() { v.w.stop() }
+
+// VerifStreamBufSize is the capacity of a streamWriter's message queue; the writer flushes
+// after at most half of it.
+const VerifStreamBufSize = streamBufSize
